@@ -10,6 +10,7 @@ Section / segment level (all images, all stream states):
 Whole-load level: see the end of the file.
 -/
 import ElfioVerif.Lemmas.LoadSpec
+import ElfioVerif.Lemmas.LoadSafety
 import ElfioVerif.Props.C02
 set_option linter.unusedSimpArgs false
 set_option linter.unusedVariables false
@@ -467,7 +468,7 @@ theorem translated_hdrRead_eq (cont img : Bytes) (table : List Trans) (sc si : I
   simp [h3, hcf]
 
 
-/-! ### whole load: the open finding F15 -/
+/-! ### whole load: the former finding F15 (repaired by `fixes/22-lazy-segment-range-check.patch`) -/
 
 def loadOk (r : M LoadRes) : Option Bool :=
   match r with
@@ -478,11 +479,13 @@ def loadOk (r : M LoadRes) : Option Bool :=
 def f15Image : Bytes := 
   [127, 69, 76, 70, 1, 1, 1, 0, 0, 0, 0, 0, 0, 0, 0, 0, 2, 0, 3, 0, 1, 0, 0, 0, 0, 0, 0, 0, 52, 0, 0, 0, 0, 0, 0, 0, 0, 0, 0, 0, 52, 0, 32, 0, 1, 0, 40, 0, 0, 0, 0, 0, 1, 0, 0, 0, 232, 3, 0, 0, 0, 0, 0, 0, 0, 0, 0, 0, 4, 0, 0, 0, 4, 0, 0, 0, 4, 0, 0, 0, 1, 0, 0, 0]
 
-/-- **F15 (open)** : `load()` answers differently for the same image — eagerly `false` (the segment's
-    data cannot be read), lazily `true` (the data is neither read nor bounds-checked) -/
-theorem lazy_load_unreadable_segment_witness :
+/-- **F15 (repaired)** : on the former witness — where the eager `load()` returned `false` (the segment's
+    data cannot be read) and the lazy `load()` returned `true` (the data was neither read nor
+    bounds-checked) — both modes now answer `false`: the lazy path of `segment_impl::load` asks the range
+    test `load_data()` asks.  The general statement is `lazy_eq_eager` / `lazy_eq_eager_result` below. -/
+theorem lazy_load_unreadable_segment_agree :
     loadOk (load {} { data := f15Image } false) = some false ∧
-    loadOk (load {} { data := f15Image } true) = some true := by
+    loadOk (load {} { data := f15Image } true) = some false := by
   decide +kernel
 
 /-! ### whole load, well-formed images -/
@@ -1295,49 +1298,52 @@ theorem segLoad_over (c : Cls) (enc : Enc) (tr : List Trans) (ls : LoadSt) (off 
   rw [segLoad_eq_ls]; simp only []
   cases isLazy <;> simp
 
-theorem segLoad_lazy_ok (c : Cls) (enc : Enc) (tr : List Trans) (ls : LoadSt) (off : Int) :
-    (segLoad c enc tr ls off true).2.2 = true := by
-  rw [segLoad_eq_ls]; rfl
+/-- **the lazy load of a program header answers what the eager load answers** (streams that agree in
+    bytes, kind and failbit; any table; the repaired F15: `Lemmas/LoadSafety.segLoad_ok_lazy_eq_eager`) -/
+theorem segLoad_ok_sim (c : Cls) (enc : Enc) (tr : List Trans) (lsL lsE : LoadSt) (h : FlagEq lsL.st lsE.st)
+    (h63 : lsE.st.data.length < 9223372036854775808) (off : Int) :
+    (segLoad c enc tr lsL off true).2.2 = (segLoad c enc tr lsE off false).2.2 := by
+  rw [segLoad_snd_flagEq c enc tr lsL lsE h off true]
+  exact segLoad_ok_lazy_eq_eager c enc tr lsE off h63
 
 theorem loadSegmentsLoop_sim (c : Cls) (enc : Enc) (tr : List Trans) (D : Bytes) (K : StreamKind)
     (h63 : D.length < 9223372036854775808) (phoff : Int) (entsize : Nat) (secsL secsE : List SecBuf)
     (hsec : Forall2 (SecPair c tr D K) secsL secsE) :
     ∀ (n i : Nat) (lsL lsE : LoadSt) (accL accE : List Seg),
       FlagEq lsL.st lsE.st → Over D K lsE → Forall2 (SegPair c tr D K) accL accE →
-      (loadSegmentsLoop c enc tr false phoff entsize secsE n i lsE accE).2.2 = true →
-      (loadSegmentsLoop c enc tr true phoff entsize secsL n i lsL accL).2.2 = true ∧
+      (loadSegmentsLoop c enc tr true phoff entsize secsL n i lsL accL).2.2 =
+        (loadSegmentsLoop c enc tr false phoff entsize secsE n i lsE accE).2.2 ∧
       Forall2 (SegPair c tr D K) (loadSegmentsLoop c enc tr true phoff entsize secsL n i lsL accL).2.1
         (loadSegmentsLoop c enc tr false phoff entsize secsE n i lsE accE).2.1 := by
   intro n
   induction n with
   | zero =>
-    intro i lsL lsE accL accE hF hO hA _
+    intro i lsL lsE accL accE hF hO hA
     simp only [loadSegmentsLoop]
-    exact ⟨by simp, forall2_reverse hA⟩
+    exact ⟨trivial, forall2_reverse hA⟩
   | succ n ih =>
-    intro i lsL lsE accL accE hF hO hA hok
+    intro i lsL lsE accL accE hF hO hA
     have hp := segPair_of_load c enc tr D K lsL lsE hF hO (phoff + Int.ofNat i * Int.ofNat entsize)
     have hf' := segLoad_st_flagEq c enc tr lsL lsE hF (by rw [hO.1]; exact h63) (phoff + Int.ofNat i * Int.ofNat entsize)
     have ho' := segLoad_over c enc tr lsE (phoff + Int.ofNat i * Int.ofNat entsize) false
-    have hlok := segLoad_lazy_ok c enc tr lsL (phoff + Int.ofNat i * Int.ofNat entsize)
-    simp only [loadSegmentsLoop] at hok ⊢
+    have hlok := segLoad_ok_sim c enc tr lsL lsE hF (by rw [hO.1]; exact h63) (phoff + Int.ofNat i * Int.ofNat entsize)
+    simp only [loadSegmentsLoop]
     generalize segLoad c enc tr lsE (phoff + Int.ofNat i * Int.ofNat entsize) false = xE at *
     generalize segLoad c enc tr lsL (phoff + Int.ofNat i * Int.ofNat entsize) true = xL at *
     obtain ⟨lsE', gE, okE⟩ := xE
     obtain ⟨lsL', gL, okL⟩ := xL
-    simp only at hp hf' ho' hlok hok ⊢
-    subst hlok
+    simp only at hp hf' ho' hlok ⊢
+    -- both runs test the same result and the same failbit: they stop, or go on, together
+    have hfl : lsL'.st.fail = lsE'.st.fail := hf'.2.2
+    rw [hlok, hfl]
     by_cases hcond : (!okE || lsE'.st.fail) = true
-    · simp only [hcond, if_true] at hok
-      exact absurd hok (by simp)
-    · simp only [hcond, Bool.false_eq_true, if_false] at hok ⊢
-      simp only [Bool.or_eq_true, Bool.not_eq_true', not_or, Bool.not_eq_false, Bool.not_eq_true] at hcond
-      have hfl : lsL'.st.fail = false := by rw [hf'.2.2]; exact hcond.2
-      simp only [hfl, Bool.not_true, Bool.or_self, Bool.false_eq_true, if_false]
+    · simp only [hcond, if_true]
+      exact ⟨trivial, forall2_reverse hA⟩
+    · simp only [hcond, Bool.false_eq_true, if_false]
       have hm := members_sim c tr D K gL gE hp.hdr secsL secsE hsec
       rw [hm]
       exact ih (i + 1) lsL' lsE' _ _ hf' ⟨by rw [ho'.1, hO.1], by rw [ho'.2, hO.2]⟩
-        (Forall2.cons (hp.upd i _) hA) hok
+        (Forall2.cons (hp.upd i _) hA)
 
 /-! #### assembly -/
 
@@ -1354,12 +1360,13 @@ theorem loadSections_sim (c : Cls) (enc : Enc) (tr : List Trans) (hdr : Bytes) (
   · exact loadSectionsLoop_sim c enc tr st.data st.kind h63 _ _ _ 0 { st := st } { st := st } [] []
       (FlagEq.refl _) ⟨rfl, rfl⟩ Forall2.nil (fun b hb => absurd hb (by simp))
 
-/-- everything after the gate: if the eager run succeeds, the lazy run succeeds with pairwise
-    equivalent sections and segments -/
+/-- everything after the gate: the lazy run returns what the eager run returns, with pairwise
+    equivalent sections and segments (also when a program header is refused: both runs stop at the same
+    one) -/
 theorem loadBody_sim (o : Obj) (c : Cls) (enc : Enc) (hdr : Bytes) (st : IStream)
-    (h63 : st.data.length < 9223372036854775808) (re : LoadRes)
-    (he : loadBody o c enc hdr st false = .ok re) (hok : re.ok = true) :
-    ∃ rl, loadBody o c enc hdr st true = .ok rl ∧ rl.ok = true ∧
+    (h63 : st.data.length < 9223372036854775808) (hsegs : o.segs = []) (re : LoadRes)
+    (he : loadBody o c enc hdr st false = .ok re) :
+    ∃ rl, loadBody o c enc hdr st true = .ok rl ∧ rl.ok = re.ok ∧
       rl.obj.cls = re.obj.cls ∧ rl.obj.enc = re.obj.enc ∧ rl.obj.hdr = re.obj.hdr ∧
       Forall2 (SecPair c o.trans st.data st.kind) rl.obj.secs re.obj.secs ∧
       Forall2 (SegPair c o.trans st.data st.kind) rl.obj.segs re.obj.segs := by
@@ -1375,14 +1382,16 @@ theorem loadBody_sim (o : Obj) (c : Cls) (enc : Enc) (hdr : Bytes) (st : IStream
     simp only [pure, Except.pure, Except.ok.injEq] at he ⊢
     refine ⟨_, rfl, ?_⟩
     subst he
-    unfold loadSegs at hok ⊢
-    split at hok
-    · exact absurd hok (by simp)
-    · rename_i hb
-      simp only [hb, Bool.false_eq_true, if_false] at hok ⊢
-      obtain ⟨g1, g2⟩ := loadSegmentsLoop_sim c enc o.trans st.data st.kind h63 _ _ pL.2 pE.2 n2 _ 0 pL.1 pE.1 [] []
-        n3 n4 Forall2.nil hok
-      refine ⟨g1, ?_, ?_, ?_, n2, g2⟩ <;> first | trivial | rfl
+    unfold loadSegs
+    split
+    · -- `load_segments` refuses the entry size in both modes
+      refine ⟨rfl, rfl, rfl, rfl, n2, ?_⟩
+      simp only [hsegs]
+      exact Forall2.nil
+    · obtain ⟨g1, g2⟩ := loadSegmentsLoop_sim c enc o.trans st.data st.kind h63
+        (Hdr.e_phoff c enc hdr).toInt (Hdr.e_phentsize c enc hdr).toNat pL.2 pE.2 n2
+        (Hdr.e_phnum c enc hdr).toNat 0 pL.1 pE.1 [] [] n3 n4 Forall2.nil
+      exact ⟨g1, rfl, rfl, rfl, n2, g2⟩
 
 theorem loadBody_cls (o : Obj) (c : Cls) (enc : Enc) (hdr : Bytes) (st : IStream) (isLazy : Bool) (r : LoadRes)
     (h : loadBody o c enc hdr st isLazy = .ok r) : r.obj.cls = o.cls := by
@@ -1396,47 +1405,64 @@ theorem loadBody_cls (o : Obj) (c : Cls) (enc : Enc) (hdr : Bytes) (st : IStream
     split <;> rfl
 
 /-- **lazy = eager, every image, every translation table** (stream shorter than 2^63 bytes; `st` is the
-    stream that is read — the container when a table is set, and nothing is assumed about the table) : if the
-    eager `load` succeeds, the lazy `load` succeeds, with the same header, and every section and
-    segment pairwise equivalent (`SecPair` / `SegPair`: see `lazy_eq_eager_obs`).
-    The hypothesis `re.ok = true` excludes exactly the open finding F15
-    (`lazy_load_unreadable_segment_witness`). -/
+    stream that is read — the container when a table is set, and nothing is assumed about the table) : the
+    lazy `load` returns exactly what the eager `load` returns (`rl.ok = re.ok` : both succeed or both
+    refuse), with the same header, and every section and segment pairwise equivalent (`SecPair` /
+    `SegPair`: see `lazy_eq_eager_obs`).  No hypothesis on the eager result any more: the former
+    hypothesis `re.ok = true` excluded exactly finding F15 (a program header whose file range lies
+    outside the stream was refused by the eager load only), repaired by
+    `fixes/22-lazy-segment-range-check.patch`. -/
 theorem lazy_eq_eager (o : Obj) (st : IStream)
     (h63 : st.data.length < 9223372036854775808) (re : LoadRes)
-    (he : load o st false = .ok re) (hok : re.ok = true) :
-    ∃ rl, load o st true = .ok rl ∧ rl.ok = true ∧
+    (he : load o st false = .ok re) :
+    ∃ rl, load o st true = .ok rl ∧ rl.ok = re.ok ∧
       rl.obj.cls = re.obj.cls ∧ rl.obj.enc = re.obj.enc ∧ rl.obj.hdr = re.obj.hdr ∧
       Forall2 (SecPair re.obj.cls o.trans st.data st.kind) rl.obj.secs re.obj.secs ∧
       Forall2 (SegPair re.obj.cls o.trans st.data st.kind) rl.obj.segs re.obj.segs := by
   rw [load_eq_ls] at he ⊢
   simp only [] at he ⊢
-  have hfail : ∀ (o' : Obj) (s : IStream), loadFail o' s = .ok re → False := by
-    intro o' s h
-    simp only [loadFail, pure, Except.pure, Except.ok.injEq] at h
-    rw [← h] at hok; exact absurd hok (by simp)
+  -- a refusal at the gate does not depend on the mode: the lazy run is the same computation
+  have hfail : ∀ (o' : Obj) (s : IStream), o'.secs = [] → o'.segs = [] → loadFail o' s = .ok re →
+      ∃ rl, loadFail o' s = .ok rl ∧ rl.ok = re.ok ∧
+        rl.obj.cls = re.obj.cls ∧ rl.obj.enc = re.obj.enc ∧ rl.obj.hdr = re.obj.hdr ∧
+        Forall2 (SecPair re.obj.cls o.trans st.data st.kind) rl.obj.secs re.obj.secs ∧
+        Forall2 (SegPair re.obj.cls o.trans st.data st.kind) rl.obj.segs re.obj.segs := by
+    intro o' s h1 h2 h
+    refine ⟨re, h, rfl, rfl, rfl, rfl, ?_, ?_⟩
+    all_goals
+      simp only [loadFail, pure, Except.pure, Except.ok.injEq] at h
+      rw [← h]
+      simp only [h1, h2]
+      exact Forall2.nil
   split at he
-  · exact absurd he (fun h => hfail _ _ h)
+  · rename_i h1
+    simp only [h1, if_true]
+    exact hfail _ _ rfl rfl he
   · split at he
-    · exact absurd he (fun h => hfail _ _ h)
+    · rename_i h1 h2
+      simp only [h1, h2, Bool.false_eq_true, if_false, if_true]
+      exact hfail _ _ rfl rfl he
     · rename_i h1 h2
       simp only [h1, h2, Bool.false_eq_true, if_false]
       generalize clsOfByte _ = x at he ⊢
       generalize encOfByte _ = y at he ⊢
       cases x with
-      | none => simp only [] at he; exact (hfail _ _ he).elim
+      | none => simp only [] at he ⊢; exact hfail _ _ rfl rfl he
       | some c =>
         cases y with
-        | none => simp only [] at he; exact (hfail _ _ he).elim
+        | none => simp only [] at he ⊢; exact hfail _ _ rfl rfl he
         | some enc =>
           simp only [] at he ⊢
           split at he
-          · exact (hfail _ _ he).elim
+          · rename_i h3
+            simp only [h3, if_true]
+            exact hfail _ _ rfl rfl he
           · rename_i h3
             simp only [h3, Bool.false_eq_true, if_false]
             have hd : ((( st.seekg (trApply o.trans 0)).read 16).1.seekg (trApply o.trans 0) |>.read (ehdrSize c)).1.data = st.data := by simp
             have hk : ((( st.seekg (trApply o.trans 0)).read 16).1.seekg (trApply o.trans 0) |>.read (ehdrSize c)).1.kind = st.kind := by simp
-            have hb := loadBody_sim (c := c) (enc := enc) (re := re) (he := he) (hok := hok)
-              (h63 := by rw [hd]; exact h63)
+            have hb := loadBody_sim (c := c) (enc := enc) (re := re) (he := he)
+              (h63 := by rw [hd]; exact h63) (hsegs := rfl)
             rw [hd, hk] at hb
             have hcls : re.obj.cls = c := loadBody_cls _ c enc _ _ false re he
             rw [hcls]
@@ -1444,14 +1470,16 @@ theorem lazy_eq_eager (o : Obj) (st : IStream)
             exact hb
 
 /-- **C15, lazy part, in observations** : for every stream shorter than 2^63 bytes, under every address
-    translation table (faithful or not; intact, truncated or corrupted container), whose eager load succeeds, the lazy load succeeds and — for every section and every segment, after
+    translation table (faithful or not; intact, truncated or corrupted container), the lazy load returns what the
+    eager load returns (success or refusal — no hypothesis on the result since the F15 repair) and — for every
+    section and every segment the loads produced, after
     ANY interleaving of data requests, data releases and arbitrary stream movements / error states
     on the lazily loaded object — a data request shows exactly what the eagerly loaded object shows
     (all header fields, name, data buffer, data size; members of segments). -/
 theorem lazy_eq_eager_obs (o : Obj) (st : IStream)
     (h63 : st.data.length < 9223372036854775808) (re : LoadRes)
-    (he : load o st false = .ok re) (hok : re.ok = true) :
-    ∃ rl, load o st true = .ok rl ∧ rl.ok = true ∧ rl.obj.cls = re.obj.cls ∧ rl.obj.enc = re.obj.enc ∧
+    (he : load o st false = .ok re) :
+    ∃ rl, load o st true = .ok rl ∧ rl.ok = re.ok ∧ rl.obj.cls = re.obj.cls ∧ rl.obj.enc = re.obj.enc ∧
       rl.obj.hdr = re.obj.hdr ∧
       rl.obj.secs.length = re.obj.secs.length ∧ rl.obj.segs.length = re.obj.segs.length ∧
       (∀ i (h1 : i < rl.obj.secs.length) (h2 : i < re.obj.secs.length) (ops : List DataOp) (ls1 ls2 : LoadSt),
@@ -1464,7 +1492,7 @@ theorem lazy_eq_eager_obs (o : Obj) (st : IStream)
         segObs (segGetData re.obj.cls o.trans (runSegOps re.obj.cls o.trans ls1 rl.obj.segs[j] ops).1
                   (runSegOps re.obj.cls o.trans ls1 rl.obj.segs[j] ops).2).2 =
           segObs (segGetData re.obj.cls o.trans ls2 re.obj.segs[j]).2) := by
-  obtain ⟨rl, a1, a2, a3, a4, a5, a6, a7⟩ := lazy_eq_eager o st h63 re he hok
+  obtain ⟨rl, a1, a2, a3, a4, a5, a6, a7⟩ := lazy_eq_eager o st h63 re he
   refine ⟨rl, a1, a2, a3, a4, a5, forall2_length a6, forall2_length a7, ?_, ?_⟩
   · intro i h1 h2 ops ls1 ls2 o1 o2
     exact (forall2_get a6 i h1 h2).obs ops ls1 ls2 o1 o2
@@ -1479,20 +1507,35 @@ def truncImage : Bytes :=
 example : ¬ C02.WellFormedImage truncImage ∧ loadOk (load {} { data := truncImage } false) = some true := by
   decide +kernel
 
-/-- the statement of `lazy_eq_eager` without the `re.ok` hypothesis is false (F15) -/
-theorem lazy_eq_eager_needs_ok :
-    ¬ (∀ (o : Obj) (st : IStream) (re : LoadRes), o.trans = [] → st.data.length < 9223372036854775808 →
-        load o st false = .ok re → ∃ rl, load o st true = .ok rl ∧ rl.ok = re.ok) := by
-  intro h
-  have w := lazy_load_unreadable_segment_witness
-  cases he : load {} { data := f15Image } false with
-  | error f => rw [he] at w; exact absurd w.1 (by simp [loadOk])
+/-- **the result of `load()` does not depend on the mode** : the statement that was refuted on the
+    unrepaired tree (`lazy_eq_eager_needs_ok`, finding F15), now for every object, every translation
+    table and every stream shorter than 2^63 bytes -/
+theorem lazy_eq_eager_result (o : Obj) (st : IStream) (re : LoadRes)
+    (h63 : st.data.length < 9223372036854775808) (he : load o st false = .ok re) :
+    ∃ rl, load o st true = .ok rl ∧ rl.ok = re.ok := by
+  obtain ⟨rl, h1, h2, -⟩ := lazy_eq_eager o st h63 re he
+  exact ⟨rl, h1, h2⟩
+
+/-- … as an equation between the two results (`loadOk`: the returned flag, `none` for a fault — and the
+    loader never faults, C01) -/
+theorem loadOk_lazy_eq_eager (o : Obj) (st : IStream) (h63 : st.data.length < 9223372036854775808)
+    (re : LoadRes) (he : load o st false = .ok re) :
+    loadOk (load o st true) = loadOk (load o st false) := by
+  obtain ⟨rl, h1, h2⟩ := lazy_eq_eager_result o st re h63 he
+  rw [h1, he]
+  simp only [loadOk, h2]
+
+/-- non-vacuity on a refusing input: the former F15 witness meets the hypotheses and the eager load
+    refuses it -/
+example : ∃ re, load {} { data := f15Image } false = .ok re ∧ re.ok = false := by
+  cases h : load {} { data := f15Image } false with
+  | error f =>
+    have w := lazy_load_unreadable_segment_agree.1
+    rw [h] at w; exact absurd w (by simp [loadOk])
   | ok re =>
-    obtain ⟨rl, h1, h2⟩ := h {} { data := f15Image } re rfl (by decide) he
-    rw [he, h1] at w
-    simp only [loadOk, Option.some.injEq] at w
-    rw [h2, w.1] at w
-    exact absurd w.2 (by simp)
+    have w := lazy_load_unreadable_segment_agree.1
+    rw [h] at w
+    exact ⟨re, rfl, by simpa [loadOk] using w⟩
 
 /-! ### address translation: whole load -/
 
